@@ -14,4 +14,3 @@ for p in $props; do
    echo "$name $p rc=$rc violations=$(grep -c '^VIOLATION' /verif/.work/mut_${name}_$p.out)"; grep -A1 '^VIOLATION' "/verif/.work/mut_${name}_$p.out" | sed -n 2p | cut -c1-220)
 done
 rm -rf "$h" "/verif/.work/w_mut_$name"; git -C /repo worktree remove --force "$wt"
-cd /verif && git checkout -- evidence 2>/dev/null
